@@ -47,10 +47,17 @@ type Gen struct {
 	queue []Step     // scripted steps still to emit
 	blocks int
 	lastActor int
+	// second, independent stream: decisions added later draw from it so that the histories produced by the
+	// first stream stay what they were
+	rng2     *rand.Rand
+	operExit bool // validator operators withdraw their whole self-delegation now and then (validator-set changes)
 }
 
 func NewGen(seed uint64, idx int, p *Profile) *Gen {
-	return &Gen{rng: rand.New(rand.NewPCG(seed, uint64(idx)*0x9e3779b97f4a7c15+uint64(len(p.Name)))), P: p, down: map[int]int{}}
+	g := &Gen{rng: rand.New(rand.NewPCG(seed, uint64(idx)*0x9e3779b97f4a7c15+uint64(len(p.Name)))), P: p, down: map[int]int{}}
+	g.rng2 = rand.New(rand.NewPCG(seed^0x5bd1e995, uint64(idx)*0x9e3779b97f4a7c15+uint64(len(p.Name))+77))
+	g.operExit = p.PNative >= 0.2 && g.rng2.Float64() < 0.35
+	return g
 }
 
 func (g *Gen) pick(n int) int {
@@ -278,6 +285,11 @@ func (g *Gen) userOp() Step {
 
 func (g *Gen) nativeOp() Step {
 	w := g.R.W
+	if g.operExit && len(w.Vals) > 1 && g.rng2.Float64() < 0.06 {
+		// an operator leaves: the validator is jailed, unbonds and is removed by x/staking once nothing is
+		// delegated to it any more (alliance-minted stake on it keeps it alive)
+		return Step{K: "oper_exit", V: 1 + g.rng2.IntN(len(w.Vals)-1)}
+	}
 	a := g.pick(len(w.Actors))
 	v := g.pick(len(w.Vals))
 	switch g.pick(6) {
